@@ -30,7 +30,7 @@ MANIFEST = dict(
         "(5) remora's Cholesky rank-one update (CMSA, ElitistCMA): cholUpdate_diag_pos / cholUpdate_valid (whenever the update returns, the factor has a positive diagonal again, for every alpha>0, any beta, any v), cmsa_factor_valid, cmsa_sigma_pos. "
         "(6) cem_variance_nonneg; SimplexDownhill: simplex_best_monotone(_run), simplex_value_is_f, simplexInit_honest + simplex_value_is_f_run (value consistency of whole runs from init, every objective; init as repaired for F16, the pinned init is simplexInitMagic with an agreement theorem and a witness of its failure). "
         "(7) Configuration axes, universally quantified: ecmaInit_invariant + ecma_elitist_monotone_run / _prefix (whole ElitistCMA runs from init, any number of steps, BOTH settings of activeUpdate(): the reported value never gets worse), "
-        "ecma_accepted_monotone (with penalties, i.e. a feasibility box: the accepted penalized fitness never increases), clamp_pos_any / sigma_pos_any_bound (sigma_pos for EVERY CMA::setLowerBound value, zero and negative included), "
+        "ecma_accepted_monotone (with penalties, i.e. a feasibility box: the accepted penalized fitness never increases), ecma_step_rank_invariant / ecma_rank_invariance (whole ElitistCMA runs on phi o f with the same samples visit the same points with the same step sizes and factors, every order-preserving phi, both activeUpdate settings; classify_relabel: the three-way success rule only compares), clamp_pos_any / sigma_pos_any_bound (sigma_pos for EVERY CMA::setLowerBound value, zero and negative included), "
         "cemNoise_nonneg / cem_variance_nonneg_any_noise (every CrossEntropyMethod::setNoiseType configuration, every generation). "
         "Tie, on every run: all strategy constants of CMA/CMSA/VD-CMA/ElitistCMA/LM-CMA objects initialised through their public interface are compared bit for bit with the Float instance of the regenerated formulas; "
         "CMA::updatePopulation, ElitistCMA::step, CMSA::updatePopulation and CrossEntropyMethod's update are re-computed step by step by the models from the real run's own state and samples (one-step refinement; ECMA/CMSA/CEM bit-identical, CMA bit-identical or 1e-9 behind BLAS/eigensolver); "
